@@ -238,6 +238,14 @@ func (zeroArr) key() string { return "zeroarr" }
 
 // loadPtr reads through pointer p.
 func (e *Engine) loadPtr(st *State, p PtrV) AVal {
+	// an entry of a constant table (constant index, or a row fixed by a split)
+	if strings.HasPrefix(p.Key, "G:") || strings.HasPrefix(p.Arr, "G:") || (p.Obj != nil && strings.HasPrefix(p.Obj.Key, "G:")) {
+		if v, ok := e.closedAt(p, 0); ok {
+			if a, ok := e.closedAVal(v, p.T, p.Key); ok {
+				return a
+			}
+		}
+	}
 	if s := fieldsOf(p.T); s != nil {
 		sv := StructV{F: map[string]AVal{}, T: s}
 		for i := 0; i < s.NumFields(); i++ {
@@ -253,6 +261,10 @@ func (e *Engine) loadPtr(st *State, p PtrV) AVal {
 	}
 	if arr, ok := p.T.Underlying().(*types.Array); ok {
 		if !strings.HasPrefix(p.Key, "G:") {
+			return ArrV{Ptr: p, Len: arr.Len()}
+		}
+		// a copy of a constant table (`for _, row := range table`)
+		if _, ok := e.closedContainer(p.Key); ok {
 			return ArrV{Ptr: p, Len: arr.Len()}
 		}
 		return e.unk()
